@@ -353,6 +353,34 @@ func init() {
 			}
 		}
 	}
+	// Observations that are numerically tied: four observers report 1.0, 1.00, 1.000 and 1.0000 for the median and
+	// quote streams of the channel (which of the equal values is stored is decided by the observation order alone),
+	// and one of them additionally carries thousands of values nobody aggregates, so the round is large (> 64 KiB).
+	RegGen("C01", "plus a large round whose observers report numerically equal values of different scale", func(g *G) {
+		for _, ver := range []uint32{1, 0} {
+			w := newWorld(g)
+			w.f, w.hasPred, w.version, w.interval, w.alias, w.verbose = 1, false, ver, uint64(ver), 0, false
+			w.now = 1_700_000_000_000_000_000
+			prev := J{"stage": "production", "ts": S(w.now - 2_000_000_000), "defs": []any{J{"id": "1", "def": J{"format": "2", "opts": "",
+				"streams": []any{J{"sid": "1", "agg": "1"}, J{"sid": "2", "agg": "3"}, J{"sid": "3", "agg": "2"}}}}},
+				"va": []any{J{"id": "1", "va": S(w.now - 4_000_000_000)}}, "aggs": []any{}}
+			obs, honest := []any{}, []any{}
+			for k := 0; k < 4; k++ {
+				one := decimal.New(int64(tenTo(k+1)), int32(-(k + 1))) // 1.0, 1.00, 1.000, 1.0000
+				vals := []any{J{"sid": "1", "v": svJ(llo.ToDecimal(one))},
+					J{"sid": "2", "v": svJ(&llo.Quote{Bid: one, Benchmark: one, Ask: one})},
+					J{"sid": "3", "v": svJ(llo.ToDecimal(decimal.New(7, 0)))}}
+				if k == 2 {
+					for sid := 100; sid < 6100; sid++ {
+						vals = append(vals, J{"sid": S(sid), "v": svJ(llo.ToDecimal(decimal.New(int64(sid), -1)))})
+					}
+				}
+				obs = append(obs, J{"retire": false, "attested": "", "ts": S(w.now + uint64(k)), "removes": []any{}, "updates": []any{}, "values": vals})
+				honest = append(honest, k)
+			}
+			g.Emit(J{"op": "llo.outcome", "cfg": w.cfgJ(), "seqNr": 5, "prev": prev, "obs": obs, "attestations": []any{}, "honest": honest}, "outcome", "tied-values-large-round")
+		}
+	})
 	RegGen("C02", "plus a round in which a correct observer reports exactly 10 000 stream values", genValueLimit(10000, "C02"))
 	RegGen("C01", "plus a round in which one observer reports 10 001 stream values (one above the limit)", genValueLimit(10001, "C01"))
 	// Correct clocks beyond 2^63 ns under protocol version 0 (whose outcome codec stores a signed time): the round
@@ -449,4 +477,13 @@ func init() {
 	}
 	RegGen("C03", "plus histories of a premium-legacy channel whose reports are also encoded by the real codec (on-chain seconds must be adjacent and non-empty)", genOnchain)
 	RegGen("C03", "plus histories in which one stream of a JSON channel has no value for one or two rounds (real JSON codec decides whether the report can be encoded)", genOutage)
+}
+
+
+func tenTo(k int) int {
+	p := 1
+	for ; k > 0; k-- {
+		p *= 10
+	}
+	return p
 }
